@@ -99,6 +99,26 @@ CHECKS.update({
         "Relies on numba's own bounds checking to report out-of-range indices; memory errors inside numba / LLVM / SciPy are outside this technique. The bounds-checked worker also calls every accessor operation in three stored layouts and zonal.mean with transposed zone rasters (eager and dask), and poisons the heap with different bytes before each of the two repeated calls.", "7/C14"),
 })
 
+# input families added in rounds i / j of the seeded changes (DESIGN section 10)
+ROUND_IJ = {
+    "C01": " Argument types of the public core: integer / bool / float32 weights, int16 / float32 data, lambda as a Python int.",
+    "C04": " Ladders from 1e-10; sweeps whose fit share lies between 1e-22 and 1e-12 are judged with a 1 % tie band, below 1e-22 SKIPped as rounding noise.",
+    "C05": " Grids of very small lambdas only (1e-9 .. 1e-7); same two thresholds on the residual share as C04.",
+    "C07": " Accessor axes stamped at 00:00, 12:00 and 18:30 in turn.",
+    "C08": " NaN cells in float cubes with a numeric nodata (for the specification: the class of negative values); zero share above 90 % only among the observations.",
+    "C09": " Process history on axes of more than 1000 steps (a complete record, then the same record with an interior stretch missing).",
+    "C10": " Chains of neighbouring representable float32 / float64 numbers (one ulp apart is strictly ordered).",
+    "C12": " Twin runs: two lazy results of one operation on one dask array differing in one argument or attribute, evaluated in one graph (11 operations).",
+    "C13": " A few counts of spread on a large offset (cancellation amplifies any re-association or FMA contraction).",
+    "C14": " Negative and NaN cells in fitted SPI pixels; the second run surrounds the pixel with different neighbours; C-allocator free lists poisoned.",
+    "C15": " Every accessor case also evaluated jointly with the same dask array under another nodata attribute, in both orders.",
+    "C16": " Neighbours of the sentinel (1..300 integer steps, 1..3 ulp, relative 1e-7 / 3e-6).",
+    "C18": " Time coordinates without an index for croo.",
+    "C19": " float64 and float32 cubes in turn (mean tolerance follows the cube's type).",
+}
+for _k, _v in ROUND_IJ.items():
+    CHECKS[_k]["note"] += _v
+
 NOT_YET = "check not built yet in this round (see DESIGN.md section 11 for the build order)"
 
 
